@@ -146,7 +146,8 @@ def run(repo: Repo, chk: Check, thorough: bool = False) -> None:
                     srcs.add(norm(a.value))
         elif r.value is not None:
             srcs.add(norm(r.value))
-    ok = any('self._mro' in s for s in srcs) and all('self._mro' in s or 'allbases' in s or '_mro[1:]' in s for s in srcs)
+    import re as _re
+    ok = any('self._mro' in s for s in srcs) and all('self._mro' in s or 'allbases' in s or _re.fullmatch(r'\w+\[1:\]', s) for s in srcs)
     chk.ob('R05.3', f'{M}.Class.mro :: returns the stored linearisation', ok, f'sources: {sorted(srcs)}' if ok else f'mro() returns {sorted(srcs)}', mf.loc)
     sl = [n for n in mf.walk() if isinstance(n, ast.Subscript) and isinstance(n.slice, ast.Slice)]
     ok = len(sl) == 1 and norm(sl[0].slice) == '1:' and any('include_self' in norm(p.test) for p in parents(sl[0]) if isinstance(p, ast.If))
